@@ -270,6 +270,16 @@ func (p *Prog) callExpr(v ssa.Value, c *ssa.CallCommon, onPath map[ssa.Value]boo
 // ResolveFuncValue resolves a called function value that is a load of a
 // local cell holding exactly one function literal or function.
 func (p *Prog) ResolveFuncValue(v ssa.Value) *ssa.Function {
+	return p.resolveFuncValue(v, map[ssa.Value]bool{})
+}
+
+func (p *Prog) resolveFuncValue(v ssa.Value, busy map[ssa.Value]bool) *ssa.Function {
+	if busy[v] {
+		// a variable defined in terms of itself (a := f(a) after inlining, a loop)
+		return nil
+	}
+	busy[v] = true
+	defer delete(busy, v)
 	switch v := v.(type) {
 	case *ssa.Function:
 		return v
@@ -277,7 +287,7 @@ func (p *Prog) ResolveFuncValue(v ssa.Value) *ssa.Function {
 		fn, _ := v.Fn.(*ssa.Function)
 		return fn
 	case *ssa.ChangeType:
-		return p.ResolveFuncValue(v.X)
+		return p.resolveFuncValue(v.X, busy)
 	case *ssa.UnOp:
 		if v.Op != token.MUL {
 			return nil
@@ -291,7 +301,7 @@ func (p *Prog) ResolveFuncValue(v ssa.Value) *ssa.Function {
 			if d.store == nil {
 				return nil
 			}
-			f := p.ResolveFuncValue(d.store.Val)
+			f := p.resolveFuncValue(d.store.Val, busy)
 			if f == nil || (found != nil && found != f) {
 				return nil
 			}
